@@ -113,7 +113,13 @@ func (c CodecProto) ReadNext(b []byte, r io.Reader, limit int) ([]byte, int, err
 			}
 			n, err := r.Read(b[len(b):cap(b)])
 			b = b[:len(b)+n]
+			if err == io.EOF && i < len(b) {
+				break // the last bytes came together with EOF
+			}
 			if err != nil {
+				if err == io.EOF && len(b) > 0 {
+					err = io.ErrUnexpectedEOF // input ends inside the length prefix
+				}
 				return b, 0, err
 			}
 		}
